@@ -80,6 +80,35 @@ def mutations(path, ops=None):
                     and '(' in s and s.count('(') == s.count(')') and s.count('{') == s.count('}') and 'panic!' not in s and 'debug_assert' not in s:
                 ind = l[:len(l) - len(l.lstrip())]
                 yield i, 'guard', '%sif !::std::thread::panicking() { %s }' % (ind, s)
+    if ops is not None and 'earlyret' in ops:
+        # an early exit inserted at a statement boundary of a function that returns () or bool: "the function can stop here"
+        ret = None
+        sig = None
+        prev = ''
+        for i, l in code:
+            s = l.strip()
+            if re.search(r'\bfn\s+\w+', s) and not s.startswith('//'):
+                sig = s
+                j = i
+                while '{' not in sig and j + 1 < len(lines) and j - i < 12:
+                    j += 1
+                    sig += ' ' + lines[j].strip()
+                head = sig.split('{')[0]
+                m = re.search(r'->\s*([^{]+?)\s*(where\b.*)?$', head)
+                rt = m.group(1).strip() if m else '()'
+                ret = {'()': ['return;'], 'bool': ['return true;', 'return false;']}.get(rt)
+                if ret is None and 'Poll<' in rt:
+                    ret = ['return ::std::task::Poll::Pending;']
+                elif ret is None and rt.startswith('Option<'):
+                    ret = ['return None;']
+                prev = s
+                continue
+            if ret and prev.endswith((';', '{', '}')) and (s.endswith(';') or s.endswith('{')) and not s.startswith(('}', '.', ')', '|', 'else', '=>', '&&', '||', 'where', 'pub ', 'fn ', 'impl', '#')) \
+                    and '=>' not in s.split('//')[0][:s.find('{')] if '{' in s else ret and prev.endswith((';', '{', '}')) and s.endswith(';') and not s.startswith(('}', '.', ')', '|', 'else', '&&', '||')):
+                ind = l[:len(l) - len(l.lstrip())]
+                for r_ in ret:
+                    yield i, 'earlyret:' + r_, '%sif ::std::thread::panicking() { %s } %s' % (ind, r_, s)
+            prev = s
     if ops is not None and 'base' not in ops:
         return
     for i, l in code:
